@@ -171,6 +171,25 @@ def encode(sk, *xs, _mode="decode"):
                     return fail("%s: a %s fiber at rank %d reports size %r, its layout stores %r words" % ("".join(desc), f, i, fb.getSize(), words))
                 if leaf and _mode == "decode":
                     sc = _scan(fb, f, leaf)
+                    if len(ot[i + 1]) >= 2 and fb is ot[i + 1][1]:
+                        # two fibers of the rank scanned in lockstep (a loop nest walks an outer and an inner fiber at the same time):
+                        # each fiber's slice position is its own
+                        fa = ot[i + 1][0]
+                        sa, sb = _scan(fa, f, leaf), sc
+                        fa.cache = Cache(); fb.cache = Cache()
+                        fa.setupSlice(0); fb.setupSlice(0)
+                        la, lb = [], []
+                        for _ in range(64):
+                            ha = fa.nextInSlice()
+                            hb = fb.nextInSlice()
+                            if ha is not None:
+                                la.append((fa.handleToCoord(ha), fa.handleToPayload(ha)))
+                            if hb is not None:
+                                lb.append((fb.handleToCoord(hb), fb.handleToPayload(hb)))
+                            if ha is None and hb is None:
+                                break
+                        if la != sa or lb != sb:
+                            return fail("%s: two fibers of rank %d scanned in lockstep yield %r / %r, scanned alone %r / %r" % ("".join(desc), i, la, lb, sa, sb))
                     if f == "U":
                         elems = [(c, fb.payloads[ph]) for c, ph in sc]
                         if elems != [(j, fb.payloads[j]) for j in range(S)]:
@@ -236,6 +255,10 @@ def obligations(tier):
         obs.append(Ob("enc/3/%s/imposed5" % "".join(desc), "encode", dict(dims=[3], desc=list(desc), imposed=[5]), names("v", 3), []))
     for desc in itertools.product("UCB", repeat=2):
         obs.append(Ob("enc/2x2/%s" % "".join(desc), "encode", dict(dims=[2, 2], desc=list(desc)), names("v", 4), []))
+        if "B" in desc:
+            # a mask of exactly one / two machine words and of one word plus one bit
+            for big in (32, 33, 64):
+                obs.append(Ob("enc/2x2/%s/imposed%dx%d" % ("".join(desc), big, big), "encode", dict(dims=[2, 2], desc=list(desc), imposed=[big, big]), names("v", 4), []))
         obs.append(Ob("enc/2x2/%s/imposed3x3" % "".join(desc), "encode", dict(dims=[2, 2], desc=list(desc), imposed=[3, 3]), names("v", 4), []))
         if not q:
             obs.append(Ob("enc/2x3/%s" % "".join(desc), "encode", dict(dims=[2, 3], desc=list(desc)), names("v", 6), []))
